@@ -258,7 +258,16 @@ func genAttacker(t *rapid.T, c *C05Case, ai int) Attacker {
 	}
 	a.Origin = "valid session"
 	limit := c.BufSize
-	switch m := rapid.IntRange(0, 13).Draw(t, "mutation"); m {
+	switch m := rapid.IntRange(0, 14).Draw(t, "mutation"); m {
+	case 14: // pre-CONNECT remaining length that never terminates (continuation bit in every byte)
+		a.Kind = "connect-unterminated-length"
+		k := rapid.IntRange(1, 8).Draw(t, "ncont")
+		h := []byte{0x10}
+		for i := 0; i < k; i++ {
+			h = append(h, 0x80|byte(rapid.IntRange(0, 127).Draw(t, "cb")))
+		}
+		pk = append([][]byte{h}, pk[1:]...)
+		a.Origin = fmt.Sprintf("CONNECT whose remaining length has %d continuation bytes and no end", k)
 	case 0: // cut at a random byte
 		a.Kind = "cut-at-byte"
 		all := bytes.Join(pk, nil)
